@@ -61,7 +61,7 @@ Lemma step_mono fns f g : rec_le f g -> rec_le (step fns f) (step fns g).
 Proof.
   intros H t st. destruct t; cbn [step].
   - (* TEval *)
-    destruct e; cbn [eval_expr]; unfold eval_logic, eval_call, ev, evs, ex, lift, rv, ro; mono H.
+    destruct e; cbn [eval_expr]; unfold eval_hof, eval_logic, eval_call, ev, evs, ex, lift, rv, ro; mono H.
   - destruct es; unfold ev, evs; mono H.
   - destruct es; unfold ev, evs; mono H.
   - destruct es; destruct ps; unfold ev, evs; mono H.
@@ -79,6 +79,8 @@ Proof.
   - unfold loop_after_body, ev, ex, ro; mono H.
   - destruct nvs as [|[n v] rest]; unfold ro; mono H.
   - destruct entries as [|[k v] more]; [unfold ro; mono H|]. destruct keys as [|key krest]; unfold ro; mono H.
+  - destruct items; unfold call_values, ex, rv; mono H.
+  - unfold call_values, ex, rv; mono H.
 Qed.
 
 Lemma run_mono_S fns fuel : rec_le (run fns fuel) (run fns (S fuel)).
